@@ -420,6 +420,21 @@ def utf8_cases(rng, quick, kws):
 
 
 # ------------------------------------------------------------------------------------------------
+def ensure_model():
+    """(re)build the OCaml driver of the extracted model: `make coq` re-extracts coq/c13_model.ml whenever
+    Gen/Tokens.v changed, the native driver has to follow"""
+    import fcntl
+    with open(os.path.join(vlib.COQ, ".make.lock"), "w") as lf:
+        fcntl.flock(lf, fcntl.LOCK_EX)
+        try:
+            p = subprocess.run(["make", "--no-print-directory", "-C", os.path.join(vlib.VERIF, "extract"), "_build/c13"], capture_output=True, text=True, timeout=600)
+            if p.returncode != 0:
+                log("[c13] building the model driver failed: " + (p.stdout + p.stderr)[-800:])
+        finally:
+            fcntl.flock(lf, fcntl.LOCK_UN)
+    return vlib.model_bin("c13")
+
+
 def shrink(case, key, probe):
     """greedy deletion of code points (valid sources) or bytes while the same key is reported"""
     mode, base, bs = case
@@ -451,10 +466,13 @@ def main():
         "Python specification oracle: positions by counting, partition by walking the source, lexical classes as regular expressions, indentation by counting; Python's strict UTF-8 decoder for the gate",
         "ScanAlias is driven with a STRING token `\"`+source+`\"` at a chosen line/column/indent; positions are judged relative to that base",
     ]
+    import time
+    t0 = time.time()
     tt = regen_tokens(b, ck)
     ck.coq()
+    t_coq = time.time() - t0
     scanx, lg = b.ensure_go("scanx")
-    model = vlib.model_bin("c13")
+    model = ensure_model()
     if not scanx:
         ck.violation("harness-build", "scanx does not build against /repo: " + lg[-500:], dict(log=lg[-3000:]), no_input=True)
         ck.finish()
@@ -495,8 +513,12 @@ def main():
     nshard = max(1, min(vlib.NCPU * 4, len(cases) // 200 + 1))
     size = (len(cases) + nshard - 1) // nshard
     shards = [cases[i:i + size] for i in range(0, len(cases), size)]
+    t1 = time.time()
     with ProcessPoolExecutor(max_workers=vlib.NCPU) as ex:
         results = list(ex.map(_work, shards))
+    t_run = time.time() - t1
+    log("[c13] %d cases in %d shards: coq+translators %.0fs, correspondence+judging %.0fs" % (len(cases), len(shards), t_coq, t_run))
+    ck.cov["phase_seconds"] = dict(coq_and_translators=round(t_coq, 1), correspondence_and_judging=round(t_run, 1))
     ck.count(len(cases))
     viol, mism = [], []
     tokens = err = 0
@@ -520,7 +542,7 @@ def main():
     for c, key, what in viol:
         if key not in seen or len(c[2]) < len(seen[key][0][2]):
             seen[key] = (c, what)
-    for key, (c, what) in sorted(seen.items()):
+    for key, (c, what) in sorted(seen.items())[:12]:
         small = shrink(c, key, probe)
         v, _, _ = _work([small])
         what = v[0][2] if v else what
